@@ -395,7 +395,7 @@ def needs(scripts):
             r = req_of(o)
             if r:
                 req.add(r)
-            elif o["op"] == "TC":
+            if o["op"] in ("TC", "AA-"):
                 req.add("LOOKUP %d" % (o["sport"] & 0xFFFF))     # the key the agent will ask for
     return sorted(req)
 
@@ -545,6 +545,10 @@ def property_failures(script, lines, spans, louts, ldumps, enc, decode, caps, pr
                     if k[0] == o["pid"]:
                         f["skip_changed"] = True
         elif op == "AA-":
+            ak = audit_key_of(enc, o["sport"])
+            if any(e[:2] == ak for e in audit_a):
+                fail(i, "remove_audit_map_entry(%d) left the record that lookup_audit(%d) reads in place" % (o["sport"], o["sport"]),
+                     {"audit": [e for e in audit_a if e[:2] == ak]})
             if done:
                 records.pop(o["sport"], None)
                 may_exist.discard(o["sport"])
